@@ -71,9 +71,11 @@ Fixpoint strictly_ascending (l : list N) : bool :=
   | _ => true
   end.
 
-Definition raw_bad (r : raw_server) : bool := match r with RS6 _ => false | _ => true end.
+Definition raw_bad (r : raw_server) : bool := match r with RS6 _ | RSzone _ => false | _ => true end.
+Definition raw_zoned (r : raw_server) : bool := match r with RSzone _ => true | _ => false end.
+(* the 128-bit addresses written, with or without a zone (a zone does not reach the option) *)
 Definition raw_addrs (l : list raw_server) : list N :=
-  flat_map (fun r => match r with RS6 a => [a] | _ => [] end) l.
+  flat_map (fun r => match r with RS6 a | RSzone a => [a] | _ => [] end) l.
 Fixpoint has_dup (l : list N) : bool :=
   match l with [] => false | x :: tl => memN x tl || has_dup tl end.
 
@@ -84,7 +86,7 @@ Definition holds_parse (c : case) : bool :=
       let bad := existsb raw_bad raw in
       let a6 := raw_addrs raw in
       match c_parsed c with
-      | Err _ => bad || has_dup a6                       (* rejected only for a reason *)
+      | Err _ => bad || has_dup a6 || existsb raw_zoned raw   (* rejected only for a reason *)
       | Ok (auto, servers) =>
           negb bad
           && Bool.eqb auto (match raw with [] => true | _ => memN 0 a6 end)
